@@ -193,6 +193,59 @@ func extractWritePaths(c *ctx) {
 			clockWrite = strings.Join(names, ",")
 		}
 	}
+	// how a clock is created (every file-system call and method call on the clock in NewPersistedClock), and
+	// which failures of opening the file `read` reports as "this clock does not exist"
+	clockCreate, clockNotExist := "unknown", "unknown"
+	if f, err := parser.ParseFile(fset, filepath.Join(c.repo, "util/lamport/persisted_clock.go"), nil, 0); err == nil {
+		for _, d := range f.Decls {
+			fd, ok := d.(*ast.FuncDecl)
+			if !ok || fd.Body == nil {
+				continue
+			}
+			switch fd.Name.Name {
+			case "NewPersistedClock":
+				var names []string
+				ast.Inspect(fd.Body, func(x ast.Node) bool {
+					if call, ok := x.(*ast.CallExpr); ok {
+						switch n := callName(call); n {
+						case "WriteFile", "Rename", "TempFile", "OpenFile", "Create", "Write", "MkdirAll":
+							names = append(names, n)
+						}
+					}
+					return true
+				})
+				clockCreate = strings.Join(names, ",")
+			case "read":
+				var conds []string
+				ast.Inspect(fd.Body, func(x ast.Node) bool {
+					if is, ok := x.(*ast.IfStmt); ok && len(is.Body.List) == 1 {
+						if rs, ok := is.Body.List[0].(*ast.ReturnStmt); ok && len(rs.Results) == 1 && exprString(fset, rs.Results[0]) == "ErrClockNotExist" {
+							conds = append(conds, exprString(fset, is.Cond))
+						}
+					}
+					if rs, ok := x.(*ast.ReturnStmt); ok && len(rs.Results) == 1 && exprString(fset, rs.Results[0]) == "ErrClockNotExist" {
+						conds = append(conds, "")
+					}
+					return true
+				})
+				// every `return ErrClockNotExist` must sit directly under one of the collected conditions
+				var guarded []string
+				n := 0
+				for _, cnd := range conds {
+					if cnd == "" {
+						n++
+					} else {
+						guarded = append(guarded, cnd)
+					}
+				}
+				if n == len(guarded) {
+					clockNotExist = strings.Join(guarded, ",")
+				} else {
+					clockNotExist = "unguarded"
+				}
+			}
+		}
+	}
 	var b strings.Builder
 	b.WriteString("namespace GitBugModel.Gen.WritePaths\n\n")
 	b.WriteString("/-- per write function: its storage-mutating calls on the repository in source order as (call, loop depth), and the mutating calls that follow a ref update inside the same block -/\n")
@@ -210,6 +263,8 @@ func extractWritePaths(c *ctx) {
 	}
 	b.WriteString("]\n\n/-- file-system calls of `PersistedClock.Write`, in source order -/\n")
 	fmt.Fprintf(&b, "def clockWrite : List String := %s\n", leanStrList(strings.Split(clockWrite, ",")))
+	fmt.Fprintf(&b, "\n/-- calls of `NewPersistedClock` that touch the file system (`Write` is the clock's own atomic write) -/\ndef clockCreate : List String := %s\n", leanStrList(strings.Split(clockCreate, ",")))
+	fmt.Fprintf(&b, "\n/-- the conditions under which `read` answers ErrClockNotExist (each `return ErrClockNotExist` sits directly under one) -/\ndef clockNotExist : List String := %s\n", leanStrList(strings.Split(clockNotExist, ",")))
 	b.WriteString("\nend GitBugModel.Gen.WritePaths\n")
 	c.writeLean("WritePaths.lean", b.String())
 	c.facts["write_paths"] = paths
